@@ -904,3 +904,14 @@ example : exHost.wf = true ∧ (exHost.net.io.all fun i => (Lib.find [("AOCELL",
   decide +kernel
 
 end KV.C10
+
+/-! ## composition with C19: `resolve_datasheet_sem` (Props/C10Datasheet.lean)
+
+`resolve_sem` above gives every library cell the RELATIONAL meaning of its implementation (`ImplMatches`).  For combinational
+cells of the families C19 covers, instantiated with all input pins connected, Props/C10Datasheet.lean turns this into the
+FUNCTIONAL statement: the consistent 2-valued labellings of `resolveCells lib h` are exactly the labellings of `h` in which every
+connected output pin `k` of every library-cell instance carries `DS.datasheet family pins [k]` of the values on the instance's
+input pins (`KV.C10.resolve_datasheet_sem`; glue `KV.Transform.implMatches_iff_datasheet`, Proofs/ImplDatasheet.lean,
+Proofs/ImplDatasheet2.lean: for an acyclic implementation `ImplMatches` ⇔ "outputs = the function of its `SimOps` program", from
+`C01.all_circuits_solution`, and C19's table theorems identify that function with the datasheet).  It lives in its own module
+because it depends on the generated library tables (`Gen.techChunks`); harness/c10.py builds and audits both modules. -/
